@@ -13,7 +13,11 @@
    the 5th-edition classes rendered in UTF-8): parse_render_sem_full_s1; stage S2 adds CstText's pieces everywhere:
    attribute values, text runs and the VALUES OF NAMESPACE DECLARATIONS are lists of literals (incl. CR), character and
    predefined references (CDATA in text) -- a URI supplied through references (xmlns:p='&#117;rn:x') declares the
-   normalised URI, and the reserved-name rules are decided on it: parse_render_sem_full_s2, spelling_insensitive_full_s2.
+   normalised URI, and the reserved-name rules are decided on it: parse_render_sem_full_s2, spelling_insensitive_full_s2;
+   stage S3 adds an internal DTD subset with character-data entities (Unicode names and values, nested, first declaration
+   wins) referenced from content, attribute values and NAMESPACE DECLARATION VALUES (a URI supplied through an entity):
+   parse_render_sem_full_s3, hoist_insensitive_full_s3.  S1 c S2 c S3; this is the single statement that covers
+   C03..C07 together on the largest fragment.
    Statements are pinned here (copied verbatim from the proof files by tools/pin_props.py);
    each is re-proved by `exact` and followed by Print Assumptions. *)
 From Coq Require Import Ascii String.
@@ -23,7 +27,7 @@ From RX Require Import Generated.
 From RX.Model Require Import Base CharClass Stream Tokenizer Doc Builder Parse Api.
 From RX.Spec Require Scope.
 From RX.Spec Require Cst CstNs CstU CstFull.
-From RX.Proofs Require Import ScopeProofs ScopeParse CstNsView CstNsMain CstFullMain CstFullS1 CstFullS2.
+From RX.Proofs Require Import ScopeProofs ScopeParse CstNsView CstNsMain CstFullMain CstFullS1 CstFullS2 CstFullS3.
 Open Scope N_scope.
 
 (* ---- Proofs/ScopeParse.v ---- *)
@@ -179,8 +183,37 @@ Print Assumptions C06_spelling_insensitive_full_s2.
 
 End G3.
 
-(* ---- Proofs/CstNsMain.v ---- *)
+(* ---- Proofs/CstFullS3.v ---- *)
 Module G4.
+Import CstFull.
+Theorem C06_parse_render_sem_full_s3 :
+  forall (d : S3.doc) (opt : options),
+  S3.wf_doc d = true ->
+  allow_dtd opt = true ->                                         (* the options allow a DOCTYPE *)
+  N.of_nat (length (S3.sem d)) < nodes_limit opt ->               (* room for all nodes + the Root *)
+  N.of_nat (length (S3.render d)) <= u32_max ->                    (* the input is at most u32::MAX bytes long *)
+  S3.distinct_decls_le d (N.to_nat 65535) ->                       (* at most 65535 distinct declared bindings *)
+  1 + N.of_nat (S3.ns_cost d) <= u32_max ->                        (* the namespace table fits *)
+  exists doc, parse (S3.render d) opt = Ok doc /\ view (S3.render d) doc = Some (S3.sem d).
+Proof. exact parse_render_sem_full_s3. Qed.
+Print Assumptions C06_parse_render_sem_full_s3.
+
+Theorem C06_hoist_insensitive_full_s3 :
+  forall (d1 d2 : S3.doc) opt,
+  S3.wf_doc d1 = true -> S3.wf_doc d2 = true -> allow_dtd opt = true -> S3.sem d1 = S3.sem d2 ->
+  N.of_nat (length (S3.sem d1)) < nodes_limit opt ->
+  N.of_nat (length (S3.render d1)) <= u32_max -> N.of_nat (length (S3.render d2)) <= u32_max ->
+  S3.distinct_decls_le d1 (N.to_nat 65535) -> S3.distinct_decls_le d2 (N.to_nat 65535) ->
+  1 + N.of_nat (S3.ns_cost d1) <= u32_max -> 1 + N.of_nat (S3.ns_cost d2) <= u32_max ->
+  exists x1 x2, parse (S3.render d1) opt = Ok x1 /\ parse (S3.render d2) opt = Ok x2 /\
+                view (S3.render d1) x1 = view (S3.render d2) x2.
+Proof. exact hoist_insensitive_full_s3. Qed.
+Print Assumptions C06_hoist_insensitive_full_s3.
+
+End G4.
+
+(* ---- Proofs/CstNsMain.v ---- *)
+Module G5.
 Import CstNs.
 Theorem C06_parse_render_sem_ns :
   forall (c : doc) (opt : options),
@@ -205,4 +238,4 @@ Theorem C06_layout_insensitive_ns :
 Proof. exact layout_insensitive_ns. Qed.
 Print Assumptions C06_layout_insensitive_ns.
 
-End G4.
+End G5.
